@@ -381,7 +381,18 @@ func genRTReqs(t *rapid.T, withCreds bool, mitm bool) []RTReq {
 				r.Headers = append(r.Headers, Field{"Connection", "proxy-authorization"}, Field{"pRoXy-AuThOrIzAtIoN", "Bearer clientsecret-3"})
 			}
 			if rapid.IntRange(0, 2).Draw(t, "authz") == 0 {
-				r.Headers = append(r.Headers, Field{"Authorization", "Basic " + base64.StdEncoding.EncodeToString([]byte("me:clientsite-secret"))})
+				// an Authorization of the client's own, in the schemes clients use (whatever it is, it is the client's)
+				v := rapid.SampledFrom([]string{
+					"Basic " + base64.StdEncoding.EncodeToString([]byte("me:clientsite-secret")),
+					"Basic " + base64.StdEncoding.EncodeToString([]byte("me:clientsite-secret")),
+					"Bearer clientsite-secret.token",
+					"Digest username=\"me\", realm=\"r\", nonce=\"n\", uri=\"/\", response=\"clientsite-secret\"",
+					"Negotiate Y2xpZW50c2l0ZS1zZWNyZXQ=",
+					"Basic " + base64.StdEncoding.EncodeToString([]byte("clientsite-secret-without-colon")),
+					"basic " + base64.StdEncoding.EncodeToString([]byte("me:clientsite-secret")),
+					"Basic !!!not-base64-clientsite-secret",
+				}).Draw(t, "authzvalue")
+				r.Headers = append(r.Headers, Field{"Authorization", v})
 			}
 		}
 		out = append(out, r)
